@@ -156,10 +156,30 @@ func sameVal(a, b ssa.Value) bool {
 }
 
 // addends flattens a sum.
-func addends(v ssa.Value) []ssa.Value {
+func addends(v ssa.Value) []ssa.Value { return addendsD(v, 0) }
+
+func addendsD(v ssa.Value, d int) []ssa.Value {
 	v = core.Resolve(v)
 	if b, ok := v.(*ssa.BinOp); ok && b.Op == token.ADD {
-		return append(addends(b.X), addends(b.Y)...)
+		return append(addendsD(b.X, d), addendsD(b.Y, d)...)
+	}
+	// a component handed up by a helper that also has "not yet" returns (0, 0, false):
+	// the one non-constant value it returns there
+	if d < 2 {
+		inner := core.StripConv(v)
+		switch inner.(type) {
+		case *ssa.Extract, *ssa.Call:
+			var nonConst []ssa.Value
+			rvs := core.ReturnedValues(inner)
+			for _, rv := range rvs {
+				if _, isC := core.ConstInt(rv); !isC {
+					nonConst = append(nonConst, rv)
+				}
+			}
+			if len(nonConst) == 1 && !(len(rvs) == 1 && rvs[0] == inner) {
+				return addendsD(nonConst[0], d+1)
+			}
+		}
 	}
 	return []ssa.Value{v}
 }
